@@ -460,8 +460,9 @@ def r04m(ck, fb, R='R04m'):
     b = ck.main(LIM + 'strip_log_to', R)
     if not b:
         return
-    cuts = [s for s in b.calls(r'fs::File::set_len$') if util.recv_fields(b, s)[-1:] == ['data_file']]
-    iw = [s for s in b.calls(r'AsyncWriteExt::write_all$') if util.recv_fields(b, s)[-1:] == ['index_file']]
+    # either step may sit in a helper of the same impl (extract-method): a call that leads to it counts as the step
+    cuts = util.sites_on_field(b, r'fs::File::set_len$', 'data_file', deep=2)
+    iw = util.sites_on_field(b, r'AsyncWriteExt::write_all$', 'index_file', deep=2)
     ck.floor(R, 'data_file.set_len in strip_log_to', len(cuts), 1)
     ck.floor(R, 'index_file.write_all in strip_log_to', len(iw), 1)
     late = [w for w in iw if any(w.bb in cfg.reach_from(b, [c.bb]) for c in cuts)]
